@@ -42,8 +42,8 @@ import re
 
 from psyclone import psyGen
 from psyclone.psyir.nodes import (
-    ACCKernelsDirective, Assignment, Call, CodeBlock, Loop, PSyDataNode,
-    Reference, Return, Routine, Statement, WhileLoop)
+    ACCKernelsDirective, ACCRoutineDirective, Assignment, Call, CodeBlock,
+    Loop, PSyDataNode, Reference, Return, Routine, Statement, WhileLoop)
 from psyclone.psyir.symbols import UnsupportedFortranType
 from psyclone.psyir.transformations.region_trans import RegionTrans
 from psyclone.psyir.transformations.transformation_error import (
@@ -75,7 +75,8 @@ class ACCKernelsTrans(RegionTrans):
 
     '''
     excluded_node_types = (CodeBlock, Return, PSyDataNode,
-                           psyGen.HaloExchange, WhileLoop)
+                           ACCRoutineDirective, psyGen.HaloExchange,
+                           WhileLoop)
 
     def apply(self, node, options=None):
         '''
